@@ -273,6 +273,29 @@ def name_class_cases(sylt, fnd):
                 fnd.report("renaming-changes-behaviour:local-named-like-%s" % {"other": "namespace", "alias": "namespace-alias", "glob": "global-function"}[nm],
                            "%s: with the local named %r the program prints %s, with a fresh name %s" % (bname, nm, o[1:], base[1:]), dict(files, **{"main.sy": head + "start :: fn do\n" + body.replace("NAME", nm) + "end\n", "renamed.sy": head + "start :: fn do\n" + body.replace("NAME", "fresh_q") + "end\n"}),
                            cmd="sylt -o a.lua main.sy; sylt -o b.lua renamed.sy   # both accepted; run both")
+    # the scope of a local starts after its initialiser (except for a lambda, which may call itself), whatever its annotation
+    head2 = "twice :: fn g: fn int -> int -> fn int -> int do\n    ret fn n: int -> int do ret g(g(n)) end\nend\nidt :: fn v: (int, int) -> (int, int) do ret v end\nsucc :: fn v: int -> int do ret v + 1 end\n"
+    shadow = {"fn_annotated": ("    f := fn n: int -> int do ret n + 1 end\n    do\n        NAME: fn int -> int = twice(f)\n        print(NAME(1))\n    end\n    print(f(1))\n", "f"),
+              "fn_unannotated": ("    f := fn n: int -> int do ret n + 1 end\n    do\n        NAME := twice(f)\n        print(NAME(1))\n    end\n", "f"),
+              "int_annotated": ("    v := 5\n    do\n        NAME: int = succ(v)\n        print(NAME)\n    end\n    print(v)\n", "v"),
+              "tuple_annotated": ("    v := (1, 2)\n    do\n        NAME: (int, int) = idt(v)\n        print(NAME)\n    end\n", "v"),
+              "constant_fn_annotated": ("    f :: fn n: int -> int do ret n + 1 end\n    do\n        NAME: fn int -> int : twice(f)\n        print(NAME(1))\n    end\n", "f")}
+    for bname, (body, outer) in shadow.items():
+        outs = {}
+        for nm in ("fresh_q", outer):
+            text = head2 + "start :: fn do\n" + body.replace("NAME", nm) + "end\n"
+            rc, lua, out = common.compile_sy(sylt, {"main.sy": text}); n += 1
+            if rc != 0 or lua is None: outs[nm] = ("rejected", out[-200:].replace("\n", " ")); continue
+            events, outcome, it = runner.run_concrete(parse(lua)); outs[nm] = ("prints", [e[1] for e in events if e[0] == "print"], outcome[0])
+        if outs["fresh_q"][0] != "prints": fnd.undecided("declaration-point case %s is rejected with a fresh name: %s" % (bname, outs["fresh_q"][1]))
+        elif outs[outer] != outs["fresh_q"]:
+            fnd.report("renaming-changes-behaviour:initialiser-sees-own-binder(%s)" % bname, "%s: naming the inner local %r (shadowing the outer one its initialiser uses) gives %s, a fresh name gives %s" % (bname, outer, outs[outer][1:], outs["fresh_q"][1:]),
+                       {"main.sy": head2 + "start :: fn do\n" + body.replace("NAME", outer) + "end\n"})
+        # without an outer binder the mention in the initialiser is a use before declaration
+        text = head2 + "start :: fn do\n" + body.split("do\n", 1)[1].replace("NAME", outer) if False else None
+    for bname, line in {"fn_annotated": "    h: fn int -> int = twice(h)\n", "int_annotated": "    h: int = succ(h)\n", "unannotated": "    h := succ(h)\n", "constant_fn_annotated": "    h: fn int -> int : twice(h)\n"}.items():
+        rc, lua, out = common.compile_sy(sylt, {"main.sy": head2 + "start :: fn do\n" + line + "end\n"}); n += 1
+        if rc == 0: fnd.report("accepted-unresolvable:own-initialiser(%s)" % bname, "%s: a local used in its own (non-lambda) initialiser is accepted" % line.strip(), {"main.sy": head2 + "start :: fn do\n" + line + "end\n"})
     return n
 
 
